@@ -631,7 +631,8 @@ void monitorsRegisterMainSolver(MainSolver const * ms, char const * role) {
         g_declared.erase(lit->second);
         g_logicIds.erase(lit);
     }
-    retireThCtx(&ms->getTHandler());
+    // (the theory-handler context needs no reset here: the solver's constructor has already traced its two initial
+    //  clauses, and a context left behind by a destroyed solver at the same address is retired by the clause hook)
     int id = idOf(g_msIds, ms);
     logRaw("{\"ev\":\"ms\",\"id\":" + std::to_string(id) + ",\"role\":\"" + role + "\",\"ctx\":" + std::to_string(logicCtx(ms->getLogic())) + "}");
     setTickWatch(watch);
